@@ -993,6 +993,42 @@ func (it *Interp) step(i int, op *Op) {
 			it.step(i, &o)
 		}
 
+	case "xexpire":
+		// macro: several hundred transfers of one chain pass their timeout in the same block (one EndBlocker refunds them all)
+		for _, o := range []Op{{K: "burst", U: op.U, C: op.C, D: op.D, N: op.N, A: "1000", F: "seq"}, {K: "block", T: 100000}, {K: "block", T: 5}, {K: "block", T: 5}} {
+			if it.Failed() {
+				break
+			}
+			o := o
+			it.step(i, &o)
+		}
+
+	case "xfull":
+		// macro: two full batches (100 transfers each) of one token wait; the external chain executes the later one, which
+		// makes the hub pay out one full batch and hand the whole older one back to the pool while handling a single event
+		for _, o := range []Op{{K: "burst", U: op.U, C: op.C, D: op.D, N: 100, A: "1000", F: "seq"}, {K: "reqbatch", C: op.C, D: op.D}, {K: "block", T: 5},
+			{K: "burst", U: op.U, C: op.C, D: op.D, N: 100 + op.R, A: "1000", F: "seq"}, {K: "reqbatch", C: op.C, D: op.D}, {K: "block", T: 5},
+			{K: "exec", C: op.C, R: 1, A: "1", T: 0}, {K: "block", T: 5}, {K: "block", T: 5}, {K: "exec", C: op.C, R: 0, A: "1", T: 0}, {K: "block", T: 5}, {K: "block", T: 5}} {
+			if it.Failed() {
+				break
+			}
+			o := o
+			it.step(i, &o)
+		}
+
+	case "xtopfee":
+		// macro: a few ordinary transfers of a token and one that offers a fee of 2^248 or more, then a batch is requested
+		top := new(big.Int).Lsh(big.NewInt(1), uint(248+op.R%2))
+		top.Add(top, big.NewInt(int64(op.R)))
+		for _, o := range []Op{{K: "burst", U: op.U, C: op.C, D: op.D, N: 3, A: "100", F: "seq"}, {K: "send", U: op.U, C: op.C, D: op.D, A: "100", F: top.String(), R: op.R},
+			{K: "block", T: 5}, {K: "reqbatch", C: op.C, D: op.D}, {K: "block", T: 5}, {K: "block", T: 5}} {
+			if it.Failed() {
+				break
+			}
+			o := o
+			it.step(i, &o)
+		}
+
 	case "xbyzdep":
 		// macro: a batch waits for its execution; a deposit arrives on that chain and the Byzantine validator is the first to
 		// report it - truthfully, except for an external height far in the future; the honest validators follow; then the
